@@ -28,8 +28,10 @@ def _stages(rel, cls):
     if params != ["self", "conditions", "extreme_values", "masks", "only_empty", "return_list"]:
         raise Broken(f"unexpected parameter list {params}")
     body = [n for n in fn.body if not (isinstance(n, ast.Expr) and isinstance(n.value, ast.Constant))]
-    if not body or not isinstance(body[0], ast.Assign) or ast.unparse(body[0].targets[0]) != "combined_mask":
-        raise Broken("first statement is not the initialisation of combined_mask")
+    # the name of the mask variable is whatever the first statement binds (local names are not part of the tie)
+    if not body or not isinstance(body[0], ast.Assign) or len(body[0].targets) != 1 or not isinstance(body[0].targets[0], ast.Name):
+        raise Broken("first statement is not the initialisation of the combined mask")
+    _stages.maskvar = body[0].targets[0].id
     init = body[0].value
     if not (isinstance(init, ast.Call) and ast.unparse(init.func) == "np.ones"):
         raise Broken("combined_mask is not initialised with np.ones(...)")
@@ -50,6 +52,9 @@ def _stages(rel, cls):
     last = rest[4]
     if ast.unparse(last.test) != "return_list" or not last.orelse:
         raise Broken("last statement is not `if return_list: ... else: ...`")
+    # the mask form returns the combined mask itself
+    if not (len(last.orelse) == 1 and isinstance(last.orelse[0], ast.Return) and ast.unparse(last.orelse[0].value) == _stages.maskvar):
+        raise Broken("the mask form does not return the combined mask")
     return out
 
 
@@ -68,7 +73,7 @@ def c_select_order_legacy():
 def _empty_operand(stages):
     node = dict(stages)["SEmpty"]
     calls = [c for c in ast.walk(node) if isinstance(c, ast.Call) and ast.unparse(c.func) == "np.logical_and"]
-    if len(calls) != 1 or len(calls[0].args) != 2 or ast.unparse(calls[0].args[0]) != "combined_mask":
+    if len(calls) != 1 or len(calls[0].args) != 2 or ast.unparse(calls[0].args[0]) != _stages.maskvar:
         raise Broken("only_empty stage is not one np.logical_and(combined_mask, <x>)")
     return ast.unparse(calls[0].args[1])
 
